@@ -113,7 +113,15 @@ class Application(IOSoftware, ABC):
                 func=lambda request, context: RequestResponse.from_bool(self.fix()), validator=_is_application_running
             ),
         )
+        # every application can be executed (the node-application-execute action addresses any application); the ones
+        # that have something specific to do when executed replace this request with their own
+        rm.add_request("execute", RequestType(func=lambda request, context: RequestResponse.from_bool(self._open())))
         return rm
+
+    def _open(self) -> bool:
+        """Default behaviour of the execute request: open (run) the application."""
+        self.run()
+        return self.operating_state == ApplicationOperatingState.RUNNING
 
     @abstractmethod
     def describe_state(self) -> Dict:
